@@ -276,12 +276,12 @@ def patterns(k, nq, level):
         if level >= 1:
             out += [(R, R), (R, N), (N, R), (F, R), (R, F)]
         if level >= 2:
-            out += [(q, N) for q in range(nq)] + [(F, q) for q in range(nq)]
+            out += [(q, N) for q in range(nq)]
         return out
     if k == 3:
         out = [(F, F, F), (F, N, N), (N, F, N), (F, N, F)]
         if level >= 1:
-            out += [(N, F, F), (R, R, R)]
+            out += [(R, R, R)]
         return out
     # k >= 4: sampled histories
     return [(F,) * k, (F,) + (N,) * (k - 1)]
@@ -291,7 +291,7 @@ def tier_plan(tier):
     # (k, pattern level, sample size per first edit or None for exhaustive)
     if tier == "quick":
         return [(1, 1, None), (2, 0, None), (3, 0, 4)]
-    return [(1, 2, None), (2, 2, None), (3, 1, None), (4, 0, 150), (5, 0, 80)]
+    return [(1, 2, None), (2, 2, None), (3, 1, None), (4, 0, 100), (5, 0, 50)]
 
 
 SHRINKS_PER_TASK = 12
